@@ -347,6 +347,13 @@ class Workflow:
         Returns:
             A new Workflow with type ORCHESTRATION
         """
+        from stabilize.dag.topological import validate_stage_graph
+
+        # Same submit-time validation as create(): a cycle, duplicate or
+        # unknown requisite ref must not be accepted for an orchestration
+        # either.
+        validate_stage_graph(stages)
+
         execution = cls(
             type=WorkflowType.ORCHESTRATION,
             application=application,
